@@ -16,6 +16,8 @@ pub mod gen;
 pub mod cases_gf255;
 #[cfg(not(kani))]
 pub mod cases_recode;
+#[cfg(not(kani))]
+pub mod cases_hash;
 
 #[cfg(kani)]
 pub mod kani_harnesses;
@@ -36,5 +38,6 @@ pub fn all_cases() -> Vec<Case> {
     let mut v = Vec::new();
     cases_gf255::register(&mut v);
     cases_recode::register(&mut v);
+    cases_hash::register(&mut v);
     v
 }
